@@ -165,6 +165,16 @@ def _shard(args):
                     break
             return _ship(stats)
 
+        if hasattr(mod, "custom_shard"):
+            res = mod.custom_shard(
+                tier, derive_seed(seed, prop_id, tier, shard_idx), n_examples, seconds, record, t0
+            )
+            if res is not None:
+                stats["failure"] = res
+            if time.time() - t0 > seconds:
+                stats["budget_exhausted"] = True
+            return _ship(stats)
+
         import hypothesis
         from hypothesis import HealthCheck, Phase, given, settings
 
@@ -319,9 +329,12 @@ def run_property(prop_id: str, tier: str, seed: int) -> int:
             path = write_replay(prop_id, case, detail)
             if str(path) not in violations:
                 violations.append(str(path))
-                print(f"failure ({job[6]} shard {job[3]}): {jdump(detail)[:1500]}")
-                print(f"VIOLATION property={prop_id} replay={path}")
+                if len(violations) <= 4:
+                    print(f"failure ({job[6]} shard {job[3]}): {jdump(detail)[:1500]}")
+                    print(f"VIOLATION property={prop_id} replay={path}")
 
+    if len(violations) > 4:
+        print(f"... {len(violations) - 4} further failing shards not printed (replays under {FRESH_REPLAY_DIR})")
     for line in known_lines:
         print(line)
 
